@@ -93,7 +93,7 @@ def project_on_score(score, score2, keep_score=False):
 
 
         if keep_score:
-            chord_score = chord2.score
+            chord_score = dict(chord2.score)
             chord_score.update(subscore.score)
         else:
             chord_score = subscore.score
